@@ -57,18 +57,27 @@ def random_schema(rng, idx):
     for i, s in enumerate(structs):
         mods = []
         if s in dict_structs:
-            mods.append(f'dict(DS{i})')
+            mods.append(f'dict({s})')          # code generation requires the dictionary of a struct to carry the struct's name (finding C10-struct-dict-name)
         if i == 0 or rng.chance(1, 6):
             mods.append('root')
         lines.append(f'struct {s} {" ".join(mods)} {{'.replace('  ', ' '))
         nf = 1 + rng.below(5)
         for j in range(nf):
             t, is_struct = field_type(s)
+            if s in dict_structs and (is_struct or t.startswith('O') or t.startswith('M') or t.startswith('[]S') or t.startswith('[]O')):
+                # a dictionary struct on a recursion cycle does not compile (finding
+                # C10-dict-struct-optional-recursion): keep dictionary structs leaf-like
+                t, is_struct = rng.choice(['uint64', 'string', '[]int64', 'float64', 'bytes dict(D0)']), False
             opt = ''
             if is_struct:
                 tgt = int(t[1:])
                 if tgt <= i:
-                    opt = ' optional'
+                    if s in dict_structs or f'S{tgt}' in dict_structs:
+                        # recursion through a dictionary struct by an optional field does not compile
+                        # (finding C10-dict-struct-optional-recursion)
+                        t, is_struct = 'uint64', False
+                    else:
+                        opt = ' optional'
             elif rng.chance(1, 5) and not t.startswith('['):
                 opt = ' optional'
             lines.append(f'  F{j} {t}{opt}')
@@ -101,6 +110,11 @@ def main():
     nrand = 4 if tier == 'quick' else 120
     for i in range(nrand):
         schemas.append((f'random{i}', random_schema(rng, i)))
+    # probes of known findings: schemas the compiler accepts whose generated code does not compile
+    schemas.append(('probe-struct-dict-name', 'package t.a\nstruct A root {\n X B\n}\nstruct B dict(D) {\n F uint64\n}\n'))
+    schemas.append(('probe-dict-struct-optional-recursion', 'package t.c\nstruct A root {\n X B\n}\nstruct B dict(B) {\n F uint64\n N B optional\n}\n'))
+    schemas.append(('probe-dict-struct-oneof-recursion', 'package t.k\nstruct A root {\n X B\n}\nstruct B dict(B) {\n F uint64\n O O\n}\noneof O {\n P bool\n Q B\n}\n'))
+    schemas.append(('probe-shared-struct-dict', 'package t.h\nstruct A root {\n X B\n Y C\n}\nstruct B dict(B) {\n F uint64\n}\nstruct C dict(B) {\n F uint64\n}\n'))
     known = {k['id']: k for k in vlib.load_known() if k['property'] == PROP and k.get('status') == 'known'}
     nhist = 0
     if not ok_oc:
@@ -160,9 +174,12 @@ def main():
             before = len(verdict.violations)
             sub = collections.Counter()
             c2 = dict(c, schema_name=name)
-            check_stream.check_case('C01', c2, o, m, verdict, {k: v for k, v in known.items()}, sub, sch)
+            kn = {kid: dict(k2, matcher=dict(k2['matcher'], scenario=c2['id'])) if k2.get('matcher', {}).get('schema') == name and k2['matcher'].get('kind') else k2
+                  for kid, k2 in known.items()}
+            c2['scenario'] = c2['id']
+            check_stream.check_case('C01', c2, o, m, verdict, kn, sub, sch)
             if len(verdict.violations) == before and sub.get('clean'):
-                check_stream.check_case('C02', c2, o, m, verdict, {k: v for k, v in known.items()}, sub, sch)
+                check_stream.check_case('C02', c2, o, m, verdict, kn, sub, sch)
             if len(verdict.violations) > before:
                 for v in verdict.violations[before:]:
                     pass
